@@ -68,8 +68,15 @@ type callOutcome struct {
 }
 
 // guarded runs f and classifies the outcome
+// entryTick, when set (worker processes), tells the parent that another public entry point is about to be called:
+// the deadline is per call of an entry point, not per case.
+var entryTick func(entry string)
+
 func guarded(entry string, f func() error) (o callOutcome) {
 	o.Entry = entry
+	if entryTick != nil {
+		entryTick(entry)
+	}
 	defer func() {
 		if p := recover(); p != nil {
 			o.Outcome = "panic"
@@ -684,6 +691,62 @@ func graphPDFs(g [][]int) (map[string][]byte, error) {
 		return nil, err
 	}
 	out["kids"] = b
+	// (iii) form XObjects: node i is a form whose content invokes its successors (cycles = forms invoking themselves
+	// or each other; the nesting limit must end them); "forms-bad": every form first invokes a form whose content
+	// stream does not parse, "forms-empty": one whose content is empty - a failing sibling must not disturb the limit
+	// "forms-fan": every successor is invoked four times (the nesting limit alone leaves fan-out^depth invocations)
+	for _, variant := range []string{"forms", "forms-bad", "forms-empty", "forms-fan"} {
+		if variant == "forms-fan" && tier() == "quick" {
+			// every call on such a file runs into the invocation budget (about 2 s each): in the quick tier only the
+			// self-invoking form, the two-form cycle and the complete graph are rendered this way
+			key := fmt.Sprint(g)
+			if key != "[[1] [] []]" && key != "[[2] [1] []]" && key != "[[1 2 3] [1 2 3] [1 2 3]]" {
+				continue
+			}
+		}
+		ff := &pdfw.File{EOL: "lf"}
+		xo := pdfw.Dict{}
+		for i := 0; i < n; i++ {
+			xo = append(xo, pdfw.KV{K: fmt.Sprintf("X%d", i+1), V: pdfw.Ref{Num: 21 + i}})
+		}
+		xo = append(xo, pdfw.KV{K: "XB", V: pdfw.Ref{Num: 20}})
+		res := pdfw.Dict{{"XObject", xo}, {"Font", pdfw.Dict{{"F1", pdfw.Ref{Num: 5}}}}}
+		form := func(body string) *pdfw.Stream {
+			return &pdfw.Stream{Dict: pdfw.Dict{{"Type", pdfw.Name("XObject")}, {"Subtype", pdfw.Name("Form")}, {"BBox", pdfw.Arr{pdfw.Int(0), pdfw.Int(0), pdfw.Int(100), pdfw.Int(100)}},
+				{"Resources", res}}, Data: []byte(body)}
+		}
+		its := []pdfw.Item{{Num: 1, Val: pdfw.Dict{{"Type", pdfw.Name("Catalog")}, {"Pages", pdfw.Ref{Num: 2}}}},
+			{Num: 2, Val: pdfw.Dict{{"Type", pdfw.Name("Pages")}, {"Kids", pdfw.Arr{pdfw.Ref{Num: 3}}}, {"Count", pdfw.Int(1)}}},
+			{Num: 3, Val: pdfw.Dict{{"Type", pdfw.Name("Page")}, {"Parent", pdfw.Ref{Num: 2}}, {"MediaBox", pdfw.Arr{pdfw.Int(0), pdfw.Int(0), pdfw.Int(100), pdfw.Int(100)}},
+				{"Resources", res}, {"Contents", pdfw.Ref{Num: 4}}}},
+			{Num: 4, Stm: &pdfw.Stream{Data: []byte("BT /F1 10 Tf 5 5 Td (page) Tj ET /X1 Do")}},
+			{Num: 5, Val: pdfw.Dict{{"Type", pdfw.Name("Font")}, {"Subtype", pdfw.Name("Type1")}, {"BaseFont", pdfw.Name("Helvetica")}}}}
+		bad := "BT (form B) Tj ET ) ]"
+		if variant == "forms-empty" {
+			bad = ""
+		}
+		its = append(its, pdfw.Item{Num: 20, Stm: form(bad)})
+		for i := 0; i < n; i++ {
+			body := fmt.Sprintf("BT /F1 10 Tf 5 %d Td (form %d) Tj ET ", 20+10*i, i+1)
+			if variant == "forms-bad" || variant == "forms-empty" {
+				body += "/XB Do "
+			}
+			reps := 1
+			if variant == "forms-fan" {
+				reps = 4
+			}
+			for _, sx := range g[i] {
+				body += strings.Repeat(fmt.Sprintf("/X%d Do ", sx), reps)
+			}
+			its = append(its, pdfw.Item{Num: 21 + i, Stm: form(body)})
+		}
+		ff.Revs = []pdfw.Revision{{XRef: "table", Root: pdfw.Ref{Num: 1}, Items: its}}
+		fb, _, err := ff.Bytes()
+		if err != nil {
+			return nil, err
+		}
+		out[variant] = fb
+	}
 	// (ii) /Prev chain: sections 1..n, section i's /Prev points at the section of its (single) successor
 	single := true
 	for _, s := range g {
@@ -943,6 +1006,10 @@ func c02Worker(in string) error {
 		}
 		fmt.Fprintf(w, "S %d 0\n", wc.Idx)
 		w.Flush()
+		entryTick = func(entry string) {
+			fmt.Fprintf(w, "T %s\n", entry)
+			w.Flush()
+		}
 		r := c02RunCase(wc.Idx, &wc.Case, func(sub int) {
 			fmt.Fprintf(w, "S %d %d\n", wc.Idx, sub)
 			w.Flush()
